@@ -68,6 +68,9 @@ func (r *Result) Panicked() bool {
 	return false
 }
 
+// ExtraEnv is appended to the environment of every child (race pass: GORACE).
+var ExtraEnv []string
+
 // BaseEnv is the minimal environment for children.
 func BaseEnv(home string) []string {
 	env := []string{
@@ -80,6 +83,7 @@ func BaseEnv(home string) []string {
 	} else {
 		env = append(env, "HOME="+os.Getenv("HOME"))
 	}
+	env = append(env, ExtraEnv...)
 	return env
 }
 
